@@ -111,6 +111,11 @@ def handle (op : String) (inp go : Sexp) : Option Reply :=
              | none => "ok")
         | _, v => v
       pure ⟨m.toStr, v⟩
+  | "C04.many", .list [_, _, _] =>
+      -- tens of thousands of real empty members: decoded and judged by the harness (well formed,
+      -- canonical re-encoding); the expected outcome is fixed
+      let want := "(ok true true)"
+      pure ⟨want, verdictOf (go.toStr == want) "a valid encoding with more than 2^16 members decoded to an ill-formed or different geometry"⟩
   | _, _ => none
 
 end GeomVerif.Driver.C04
